@@ -192,6 +192,8 @@ class scheduler {
   // ------------------------------------------------------------- verdicts
   // Set when the scheduler decided deadlock/livelock; the harness's handler runs then.
   std::function<void(const std::string& kind, const std::string& what)> on_fatal;
+  // called (by the dying thread, still holding the token) when a managed thread is completely gone
+  std::function<void(int id)> on_thread_gone;
   std::string verdict;
 
   // ---------------------------------------------------------- observation
@@ -353,6 +355,7 @@ class scheduler {
     s.th[id].finished = true;
     s.th[id].spinning = false;
     ++s.clock;
+    if (s.on_thread_gone) s.on_thread_gone(id);
     s.note_write_by(id);
     tl_id = -1;
     // hand the token on; never returns to this thread
